@@ -1122,6 +1122,14 @@ func c20BlockFormats(ctx *core.Ctx, obs []c20BlockObs, rp *c20Reporter) {
 			// the gzip member around it is made here
 			codec, op = "gzip", "inflate.fixedenc "
 		}
+		if i%10 == 2 || i%10 == 7 {
+			// raw DEFLATE from the greedy LZ77 + fixed-Huffman encoder (proved: inflate_deflateFixed_id):
+			// length/distance pairs, overlapping ones on runs; window 1..32 keeps the matcher cheap
+			codec, op = "gzip", fmt.Sprintf("inflate.lz77enc %d ", []int{1, 3, 8, 32}[(i/10)%4])
+			if in.Len > 530 {
+				in.Len = []int{257, 258, 259, 260, 261, 516, 517, 530}[(i/10)%8]
+			}
+		}
 		reqs = append(reqs, op+core.Hex(in.Bytes()))
 		ins, codecs = append(ins, in), append(codecs, codec)
 	}
@@ -1141,8 +1149,12 @@ func c20BlockFormats(ctx *core.Ctx, obs []c20BlockObs, rp *c20Reporter) {
 		if src == "-" {
 			src = ""
 		}
-		if strings.HasPrefix(reqs[i], "inflate.fixedenc ") {
+		if strings.HasPrefix(reqs[i], "inflate.fixedenc ") || strings.HasPrefix(reqs[i], "inflate.lz77enc ") {
 			x := ins[i].Bytes()
+			if strings.HasPrefix(reqs[i], "inflate.lz77enc ") {
+				// a stream shorter than the literal-only coding (>= 8 bits a byte) holds references
+				ctx.Hist("c20.lz77enc", fmt.Sprintf("%s/with-references=%v", strings.Fields(reqs[i])[1], len(src)/2 < len(x)))
+			}
 			m := append([]byte{0x1f, 0x8b, 8, 0, 0, 0, 0, 0, 0, 255}, mustHex(src)...)
 			m = binary.LittleEndian.AppendUint32(m, crc32.ChecksumIEEE(x))
 			m = binary.LittleEndian.AppendUint32(m, uint32(len(x)))
